@@ -181,7 +181,7 @@ func TestC12(t *testing.T) {
 		var b *Chain
 		func() {
 			defer func() {
-				if r := recover(); r != nil {
+				if r := notRapid(recover()); r != nil {
 					t.Fatalf("a fresh chain cannot be initialised from the exported genesis: %v\nhistory:\n%s", r, jsonStr(d.log))
 				}
 			}()
